@@ -725,3 +725,66 @@ def zip_components(elem_terms):
             break
         return ts
     return base(z[2][0]), base(z[2][1])
+
+
+def cost_pairs(ctx, planner, ts, cf, sf, depth=0):
+    """ts is a cost-to-come expression  <parent>.cost + distance(space, <child>.state, <parent>.state)  written inline or
+    through a helper (any signature): returns [(child node terms, parent node terms)], else None.  The helper's return
+    value is instantiated with the call's arguments; an INFINITY fallback is ignored."""
+    from .core import DISTANCE
+    INF = ('inff', 'path:std::f64::INFINITY', 'path:core::f64::INFINITY', 'path:core::f64::<impl f64>::INFINITY',
+           'path:std::f64::<impl f64>::INFINITY')
+    if not ts:
+        return None
+    res = []
+    for n in ts:
+        if n[0] == 'const' and n[1] in INF and depth > 0:
+            continue
+        if n[0] == 'call' and depth < 2:
+            cb = ctx.core.body(n[1])
+            if cb is None or cb.j.get('ret_ty') != 'f64':
+                return None
+            f2 = ctx.fn(cb)
+            rt = set()
+            for rb in f2.return_blocks():
+                rt |= f2.local_terms(0, (rb, f2.nstmts(rb)))
+            rt = frozenset(rt)
+            for i in range(1, cb.arg_count + 1):
+                if i - 1 < len(n[2]):
+                    rt = subst(rt, T(('param', i, cb.local_name(i))), n[2][i - 1])
+            sub = cost_pairs(ctx, planner, rt, cf, sf, depth + 1)
+            if sub is None:
+                return None
+            res.extend(sub)
+            continue
+        if n[0] == 'binop' and n[1] == 'Add':
+            hit = None
+            for (x, y) in ((n[2], n[3]), (n[3], n[2])):
+                if len(x) != 1 or len(y) != 1:
+                    continue
+                xn, yn = next(iter(strip_clone(x))) if strip_clone(x) else None, next(iter(y))
+                if xn is None or xn[0] != 'field' or xn[2] != cf:
+                    continue
+                if yn[0] != 'call' or yn[1] != DISTANCE or len(yn[2]) != 3:
+                    continue
+                parent = strip_clone(xn[1])
+                pstate = T(('field', parent, sf))
+                s1, s2 = strip_clone(yn[2][1]), strip_clone(yn[2][2])
+                other = s2 if s1 == pstate else (s1 if s2 == pstate else None)
+                if other is None or not other:
+                    continue
+                if len(other) != 1:
+                    hit = (T(('agg', '<state>', 'StateOnly', ((sf, other),))), parent)
+                    continue
+                on = next(iter(other))
+                if on[0] == 'field' and on[2] == sf:
+                    hit = (strip_clone(on[1]), parent)
+                else:
+                    # the child is given by its state only (a node that is not built yet): a pseudo node carrying that state
+                    hit = (T(('agg', '<state>', 'StateOnly', ((sf, other),))), parent)
+            if hit is None:
+                return None
+            res.append(hit)
+            continue
+        return None
+    return res or None
